@@ -59,6 +59,7 @@ class SymUnit:
         self.idx = z3.Int(name)
         c = ctx()
         c.inputs[name] = self.idx
+        c.inputs[name + "#fac"] = _fac_fn(self.base)(self.idx)
         c.assume(_fac_fn(self.base)(self.idx) > 0)
 
     def factor(self):
